@@ -1,5 +1,6 @@
 import TantivyModel.Model.QuerySem
 import TantivyModel.Model.PhraseSlop
+import TantivyModel.Gen.BoolWeight
 /-
 C03 — implementation-level model of how a query tree becomes a scorer tree for one segment.
 
@@ -142,11 +143,19 @@ def complex (scoring : Bool) (n : Nat) (must should excl : List STree) (msm : Na
 def occList (o : Occur) (cs : List (Occur × STree)) : List STree :=
   (cs.filter (fun c => c.1 == o)).map (·.2)
 
-/-- `BooleanWeight::scorer` -/
-def boolScorer (scoring : Bool) (n : Nat) (cs : List (Occur × STree)) (msm : Nat) : STree :=
+/-- does the `weights.len() == 1` branch of `BooleanWeight::scorer` honour
+`minimum_number_should_match`? Regenerated from the source on every run
+(`extract/items/boolweight.py`): 0 for the pinned code (DESIGN F4), 1 once the branch carries the
+guard `self.minimum_number_should_match > num_should`. -/
+def singleClauseGuard : Bool := Gen.BOOL_SINGLE_CLAUSE_HONOURS_MSM == 1
+
+/-- `BooleanWeight::scorer`; `guard` = the single-clause branch honours the minimum
+(`singleClauseGuard` for the code as it is now) -/
+def boolScorer (guard : Bool) (scoring : Bool) (n : Nat) (cs : List (Occur × STree)) (msm : Nat) : STree :=
   match cs with
   | [] => .empty
-  | [(o, t)] => if o == .mustNot then .empty else t
+  | [(o, t)] =>
+    if o == .mustNot || (guard && decide ((if o == .should then 1 else 0) < msm)) then .empty else t
   | _ => complex scoring n (occList .must cs) (occList .should cs) (occList .mustNot cs) msm
 
 /-- doc ids of the segment whose document satisfies a predicate -/
@@ -229,20 +238,20 @@ def leafTree : LeafCls := fun scoring boosted l docs =>
 
 mutual
 /-- `Query::weight(..).scorer(segment)` as a scorer tree -/
-def compile (cls : LeafCls) (scoring : Bool) (docs : List ADoc) : (boosted : Bool) → Query → STree
+def compile (cls : LeafCls) (guard : Bool) (scoring : Bool) (docs : List ADoc) : (boosted : Bool) → Query → STree
   | b, .leaf l => cls scoring b l docs
-  | b, .boost q => compile cls scoring docs (b || scoring) q
+  | b, .boost q => compile cls guard scoring docs (b || scoring) q
   | b, .constScore q =>
-    if scoring then .wrapped (compile cls scoring docs b q) else compile cls scoring docs b q
-  | b, .disMax qs => boolScorer scoring docs.length (compileAny cls scoring docs b qs) 1
-  | b, .bool cs msm => boolScorer scoring docs.length (compileClauses cls scoring docs b cs) msm
-def compileAny (cls : LeafCls) (scoring : Bool) (docs : List ADoc) : Bool → List Query → List (Occur × STree)
+    if scoring then .wrapped (compile cls guard scoring docs b q) else compile cls guard scoring docs b q
+  | b, .disMax qs => boolScorer guard scoring docs.length (compileAny cls guard scoring docs b qs) 1
+  | b, .bool cs msm => boolScorer guard scoring docs.length (compileClauses cls guard scoring docs b cs) msm
+def compileAny (cls : LeafCls) (guard : Bool) (scoring : Bool) (docs : List ADoc) : Bool → List Query → List (Occur × STree)
   | _, [] => []
-  | b, q :: qs => (.should, compile cls scoring docs b q) :: compileAny cls scoring docs b qs
-def compileClauses (cls : LeafCls) (scoring : Bool) (docs : List ADoc) :
+  | b, q :: qs => (.should, compile cls guard scoring docs b q) :: compileAny cls guard scoring docs b qs
+def compileClauses (cls : LeafCls) (guard : Bool) (scoring : Bool) (docs : List ADoc) :
     Bool → List (Occur × Query) → List (Occur × STree)
   | _, [] => []
-  | b, (o, q) :: cs => (o, compile cls scoring docs b q) :: compileClauses cls scoring docs b cs
+  | b, (o, q) :: cs => (o, compile cls guard scoring docs b q) :: compileClauses cls guard scoring docs b cs
 end
 
 /-- `BooleanWeight::{for_each, for_each_no_score, for_each_pruning}` call `complex_scorer`
@@ -250,17 +259,17 @@ directly: the `weights.len() == 1` shortcut of `scorer` is *not* taken for the o
 boolean weight on the collector paths (DocSetCollector, TopDocs, tuple collectors). Boost and
 const-score weights fall back to `Weight::for_each*` defaults (= `scorer`) when scoring is
 enabled and are transparent otherwise. -/
-def compileTop (cls : LeafCls) (scoring : Bool) (docs : List ADoc) : Query → STree
+def compileTop (cls : LeafCls) (guard : Bool) (scoring : Bool) (docs : List ADoc) : Query → STree
   | .bool cs msm =>
-    let l := compileClauses cls scoring docs false cs
+    let l := compileClauses cls guard scoring docs false cs
     complex scoring docs.length (occList .must l) (occList .should l) (occList .mustNot l) msm
   | .disMax qs =>
-    let l := compileAny cls scoring docs false qs
+    let l := compileAny cls guard scoring docs false qs
     complex scoring docs.length (occList .must l) (occList .should l) (occList .mustNot l) 1
-  | .boost q => if scoring then compile cls scoring docs true q else compileTop cls scoring docs q
+  | .boost q => if scoring then compile cls guard scoring docs true q else compileTop cls guard scoring docs q
   | .constScore q =>
-    if scoring then .wrapped (compile cls scoring docs false q) else compileTop cls scoring docs q
-  | q => compile cls scoring docs false q
+    if scoring then .wrapped (compile cls guard scoring docs false q) else compileTop cls guard scoring docs q
+  | q => compile cls guard scoring docs false q
 
 /-! ### the hypotheses under which the implementation is the specification
 
@@ -269,7 +278,8 @@ def compileTop (cls : LeafCls) (scoring : Bool) (docs : List ADoc) : Query → S
 evaluated by two different greedy algorithms; fuzzy prefix mode is evaluated by an automaton that
 forgets improvable prefix matches. The driver can evaluate the hypotheses on any query. -/
 
-def singleOk (cs : List (Occur × Query)) (msm : Nat) : Bool :=
+def singleOk (guard : Bool) (cs : List (Occur × Query)) (msm : Nat) : Bool :=
+  guard ||
   match cs with
   | [(o, _)] =>
     match o with
@@ -284,18 +294,18 @@ def leafOk : Leaf → Bool
   | _ => true
 
 mutual
-def okQ : Query → Bool
+def okQ (guard : Bool) : Query → Bool
   | .leaf l => leafOk l
-  | .boost q => okQ q
-  | .constScore q => okQ q
-  | .disMax qs => okQs qs
-  | .bool cs msm => singleOk cs msm && okCs cs
-def okQs : List Query → Bool
+  | .boost q => okQ guard q
+  | .constScore q => okQ guard q
+  | .disMax qs => okQs guard qs
+  | .bool cs msm => singleOk guard cs msm && okCs guard cs
+def okQs (guard : Bool) : List Query → Bool
   | [] => true
-  | q :: qs => okQ q && okQs qs
-def okCs : List (Occur × Query) → Bool
+  | q :: qs => okQ guard q && okQs guard qs
+def okCs (guard : Bool) : List (Occur × Query) → Bool
   | [] => true
-  | (_, q) :: cs => okQ q && okCs cs
+  | (_, q) :: cs => okQ guard q && okCs guard cs
 end
 
 /-! ### collectors (per segment) -/
@@ -304,40 +314,40 @@ def aliveAt (alive : List Bool) (d : Nat) : Bool := alive.getD d false
 
 /-- segment doc ids handed to a collector: the scorer's docs filtered by the alive bitset
 (`SegmentCollector` wrappers / `collect_segment`) -/
-def collectDocs (cls : LeafCls) (scoring : Bool) (s : Seg) (q : Query) : List Nat :=
-  (interp s.docs.length (compile cls scoring s.docs false q)).filter (aliveAt s.alive)
+def collectDocs (cls : LeafCls) (guard : Bool) (scoring : Bool) (s : Seg) (q : Query) : List Nat :=
+  (interp s.docs.length (compile cls guard scoring s.docs false q)).filter (aliveAt s.alive)
 
 /-- the same through `Weight::for_each*` (collector paths) -/
-def collectDocsTop (cls : LeafCls) (scoring : Bool) (s : Seg) (q : Query) : List Nat :=
-  (interp s.docs.length (compileTop cls scoring s.docs q)).filter (aliveAt s.alive)
+def collectDocsTop (cls : LeafCls) (guard : Bool) (scoring : Bool) (s : Seg) (q : Query) : List Nat :=
+  (interp s.docs.length (compileTop cls guard scoring s.docs q)).filter (aliveAt s.alive)
 
-def collectIdsTop (cls : LeafCls) (scoring : Bool) (s : Seg) (q : Query) : List Nat :=
-  (collectDocsTop cls scoring s q).filterMap (fun d => (s.docs[d]?).map (·.id))
+def collectIdsTop (cls : LeafCls) (guard : Bool) (scoring : Bool) (s : Seg) (q : Query) : List Nat :=
+  (collectDocsTop cls guard scoring s q).filterMap (fun d => (s.docs[d]?).map (·.id))
 
 /-- `DocSetCollector` / `TopDocs` with limit ≥ number of matches: the ids -/
-def collectIds (cls : LeafCls) (scoring : Bool) (s : Seg) (q : Query) : List Nat :=
-  (collectDocs cls scoring s q).filterMap (fun d => (s.docs[d]?).map (·.id))
+def collectIds (cls : LeafCls) (guard : Bool) (scoring : Bool) (s : Seg) (q : Query) : List Nat :=
+  (collectDocs cls guard scoring s q).filterMap (fun d => (s.docs[d]?).map (·.id))
 
 /-- `Count` collector -/
-def collectCount (cls : LeafCls) (scoring : Bool) (s : Seg) (q : Query) : Nat :=
-  (collectDocs cls scoring s q).length
+def collectCount (cls : LeafCls) (guard : Bool) (scoring : Bool) (s : Seg) (q : Query) : Nat :=
+  (collectDocs cls guard scoring s q).length
 
 /-- `Weight::count` default: with deletes count alive docs of the scorer, else
 `count_including_deleted` -/
-def weightCount (cls : LeafCls) (s : Seg) (q : Query) : Nat :=
-  if s.alive.all id then (interp s.docs.length (compile cls false s.docs false q)).length
-  else collectCount cls false s q
+def weightCount (cls : LeafCls) (guard : Bool) (s : Seg) (q : Query) : Nat :=
+  if s.alive.all id then (interp s.docs.length (compile cls guard false s.docs false q)).length
+  else collectCount cls guard false s q
 
 /-- `TermWeight::count` shortcut: `doc_freq` of the term when the segment has no alive bitset -/
 def termCountShortcut (s : Seg) (f : Nat) (t : Bytes) : Nat :=
   (docsWhere s.docs (fun d => hasTerm d f t)).length
 
 /-- whole-searcher result of a query: ids over all segments -/
-def searchIds (cls : LeafCls) (scoring : Bool) (c : Corpus) (q : Query) : List Nat :=
-  c.flatMap (fun s => collectIds cls scoring s q)
+def searchIds (cls : LeafCls) (guard : Bool) (scoring : Bool) (c : Corpus) (q : Query) : List Nat :=
+  c.flatMap (fun s => collectIds cls guard scoring s q)
 
 /-- whole-searcher result through the collector paths (`for_each*`) -/
-def searchIdsTop (cls : LeafCls) (scoring : Bool) (c : Corpus) (q : Query) : List Nat :=
-  c.flatMap (fun s => collectIdsTop cls scoring s q)
+def searchIdsTop (cls : LeafCls) (guard : Bool) (scoring : Bool) (c : Corpus) (q : Query) : List Nat :=
+  c.flatMap (fun s => collectIdsTop cls guard scoring s q)
 
 end TantivyModel.BoolCompile
